@@ -328,6 +328,18 @@ func TestVerifC13(t *testing.T) {
 		rnd := verifrt.NewRand(verifrt.Seed(), fmt.Sprintf("%s/%d", check, i))
 		day0 := verifref.DaysFromCivil(2023, 1, 1) + int64(rnd.Intn(700))
 		ndays := 1 + rnd.Intn(6)
+		switch i % 10 {
+		case 3:
+			// a range across the end of a year (the day of the year starts again)
+			ndays = 2 + rnd.Intn(5)
+			day0 = verifref.DaysFromCivil(2023+rnd.Intn(2), 12, 31) - int64(rnd.Intn(ndays-1))
+			res.Hit("range-across-new-year")
+		case 8:
+			// ... and across the end of February, leap day or not
+			ndays = 2 + rnd.Intn(5)
+			day0 = verifref.DaysFromCivil(2023+rnd.Intn(2), 2, 28) - int64(rnd.Intn(ndays-1))
+			res.Hit("range-across-end-of-february")
+		}
 		var all []*wreport
 		byDay := map[string][]*wreport{}
 		var xs []float64
@@ -637,7 +649,7 @@ func TestVerifC13(t *testing.T) {
 			res.Sample(map[string]any{"case": i, "days": ndays, "reports": len(all), "first_day": dayStr(day0)})
 		}
 	}
-	res.Require("same-id-twice-on-one-day", "concurrent-merge-requests", "merge-commit-fails", "chart-commit-fails", "stray-object-in-upload-bucket", "merge-under-descriptor-limit", "concurrent-chart-requests", "re-merge-after-replacement", "merged-line>64KiB", "duplicate-X", "missing-day", "sub-range", "semver-equal-versions")
+	res.Require("range-across-new-year", "range-across-end-of-february", "same-id-twice-on-one-day", "concurrent-merge-requests", "merge-commit-fails", "chart-commit-fails", "stray-object-in-upload-bucket", "merge-under-descriptor-limit", "concurrent-chart-requests", "re-merge-after-replacement", "merged-line>64KiB", "duplicate-X", "missing-day", "sub-range", "semver-equal-versions")
 	if err := res.Write(); err != nil {
 		t.Fatal(err)
 	}
